@@ -579,8 +579,23 @@ def execute(ctx, route, fail_at=0, spelling=None, workdir=None, bad=None, preexi
                         f.write(preexisting)
                 elif os.path.exists(outp):
                     os.remove(outp)
+                # a species filter that deletes nothing leaves the table what it is (C13): every third run excludes a species the model
+                # does not have, every third one includes all it has
+                filt = []
+                if bad is None and ctx.idx % 3 == 1:
+                    filt = ["--exclude-species", "Zq9"]
+                elif bad is None and ctx.idx % 3 == 2:
+                    import re as _re
+                    labels, sec_ = set(), None
+                    for line in text.splitlines():
+                        if line.startswith("["):
+                            sec_ = line.strip("[] ")
+                        elif sec_ in ("Pair", "EAM-Embed", "EAM-Density", "EAM-ADP-Dipole", "EAM-ADP-Quadrupole") and ":" in line and not line[0].isspace():
+                            labels.update(x.strip() for x in _re.split(r"->|-", line.split(":", 1)[0]) if x.strip())
+                    if labels:
+                        filt = ["--include-species"] + sorted(labels)
                 try:
-                    status, so, se = run_cli([inp, outp])
+                    status, so, se = run_cli([inp, outp] + filt)
                 except Exception as e:      # an exception that escapes main(): the process would end with a traceback
                     status, so, se = 1, "", "uncaught %s: %s" % (type(e).__name__, str(e)[:200])
                     res["exc_type"] = type(e).__name__
